@@ -380,3 +380,29 @@ PROPS["C06"] = {
         leg("rt-reduce", "c03_rt", (2, 3), {"kind": "reduce_body", "mask": 0}, flags=("-fp",), what="real scheduler: parallel_reduce over 4 elements (no fault), completes with every body exactly once"),
     ],
 }
+
+# ------------------------------------------------------------------------------------------------ C07
+def _c07():
+    L = [
+        leg("vtbb-modes3", "c07_pipe", (4, 6), {"lmax": 3, "tmax": 3, "imax": 4, "pmax": 3}, flags=(), what="all 39 filter-mode sequences of length 1..3 x tokens 1..3 x items 0..4 x P 2..3 x item type (int in a void* / allocated object)", weight=2.0),
+        leg("vtbb-modes4", "c07_pipe", (3, 4), {"lmax": 4, "tmax": 4, "imax": 5, "pmax": 3}, flags=(), what="all 120 filter-mode sequences of length 1..4 x tokens 1..4 x items 0..5", weight=2.0),
+        leg("vtbb-grow", "c07_pipe", (3, 4), {"grow": 1}, flags=(), what="item 0 stalled inside a filter while 5-8 other stage tasks run: >= 4 tokens parked behind it, input_buffer::grow relocates parked items (tokens 5..7, items 6/9)", weight=2.0),
+    ]
+    rt = [("ipo", {}, (2, 3)), ("pio", {}, (2, 3)), ("ipi", {}, (2, 3)), ("oo", {}, (2, 3)), ("p", {}, (2, 3)), ("pp", {}, (2, 3)), ("ipi", {"big": 1}, (2, 3)), ("ipo", {"asleep": 1}, (2, 3)),
+          ("ipo", {"tokens": 1}, (2, 3)), ("ipi", {"tokens": 3, "items": 4}, (2, 2)), ("iio", {"tokens": 3, "items": 4}, (2, 2)), ("ipi", {"P": 3}, (1, 2))]
+    for m, extra, b in rt:
+        prm = {"modes": m}; prm.update(extra)
+        name = "rt-" + m + "".join("-%s%s" % (k, v) for k, v in extra.items())
+        L.append(leg(name, "c07_rt", b, prm, what="real scheduler: filters %s %s (2 tokens, 3 items unless stated; item 0 is a null void* for int items)" % (m, extra or ""), weight=3.0 if extra.get("P") == 3 else 1.0))
+    return L
+PROPS["C07"] = {
+    "explanation": "The real src/tbb/parallel_pipeline.cpp and filter templates. (1) On the abstract scheduler vtbb: every filter-mode sequence up to length 3 (4 in the second leg) x token limits x item "
+                   "counts x virtual workers x two item representations; each filter body contains a point where another virtual worker may run a whole stage task, so invocations overlap, and "
+                   "which worker pops/steals next is an explorer choice; 'stalled item' variants park >= 4 tokens so that input_buffer::grow runs with parked items. (2) On the real scheduler with "
+                   "one or two real workers under vsched: all thread interleavings within the bound of token counter, input_buffer lock, parking/waking at serial filters, recycling of stage tasks. "
+                   "Oracle (both): each item through each filter exactly once and only after the previous filter; every serial_in_order filter sees the order of the first one (checked at every "
+                   "invocation); a serial filter never has two live invocations; items in flight <= max_number_of_live_tokens at every production; at return: end of input was signalled, all items "
+                   "left the last filter, nothing runs afterwards, item objects destroyed exactly once, no task left or leaked.",
+    "rule": VTBB_RULE + "; rt legs: every schedule within the deviation bound on the real scheduler",
+    "legs": _c07(),
+}
